@@ -165,6 +165,13 @@ class DefGen:
             req = sum(1 for p in d["params"] if "default" not in p)
             m = rng.randint(req, len(d["params"]))
             args = [self.arg()[0] for _ in range(m)]
+            # an explicit constant that EQUALS the parameter's default without being the same value (0 / False, 1 / True):
+            # it is an explicit argument all the same, and the body must see it, not the default
+            twins = {0: False, 1: True}
+            for i_, p_ in enumerate(d["params"][:m]):
+                dv = p_.get("default", "no")
+                if type(dv) in (int, bool) and dv in (0, 1) and rng.random() < 0.35:
+                    args[i_] = ["c", (int(dv) if isinstance(dv, bool) else twins[dv]) if rng.random() < 0.8 else dv]
             fl = None
             if self.allow_flags and not d["uses_flags"] and rng.random() < 0.3:
                 fl = self.flag()
